@@ -11,6 +11,10 @@ Driver for the stream `cond` (C10).
 *spec* judged independently: the list has no duplicates and is exactly the set of types reachable
 through explicit conformances (computed here by a naive fixpoint, not by the port).
 
+`mprog`: the same calculus program rendered as two contracts (interfaces in CA, the composite in CB at the
+same or at another address) and a script; judged exactly like `prog` (where a declaration lives is not
+part of the calculus, so both models are unchanged).
+
 `prog`, direct oracle (independent of the evaluator): `false-condition-ignored` — the run completed
 normally although `main` calls a function that has a constant-false test condition in scope (own, or
 of any interface reachable from the composite; pre or post).
@@ -72,11 +76,12 @@ def judgeConf (graph go : String) : Verdict :=
 mutual
 partial def bHasFF : BExp → Bool
   | .ff => true
+  | .lt l r => l == r                -- `e < e` (e.g. `before(e) < before(e)`): false whenever it evaluates
   | .and l r => bHasFF l || bHasFF r
   | _ => false
 end
 
-/-- a test that is false in every state, recognised syntactically (`false`, or a conjunction containing it) -/
+/-- a test that is false in every state, recognised syntactically (`false`, `e < e`, or a conjunction containing one) -/
 def condConstFalse : Cond → Bool
   | .test t => bHasFF t
   | .emit _ => false
@@ -145,6 +150,7 @@ def judge (op : List String) (go : String) : Verdict :=
   match op with
   | _ :: "conf" :: graph :: _ => judgeConf graph go
   | _ :: "prog" :: _ => judgeProg op go
+  | _ :: "mprog" :: _ => judgeProg op go   -- same program, rendered as two contracts and a script
   | _ => .skip "unknown-op"
 
 def main : IO Unit := runDriver judge
